@@ -1,5 +1,4 @@
 """Batch runner: seeded runs over a fork pool, shrinking, replay files, evidence, exit codes."""
-import concurrent.futures as cf
 import faulthandler
 import json
 import multiprocessing
@@ -84,6 +83,7 @@ def _worker(args):
     agg = _empty_agg()
     for i in indices:
         faulthandler.dump_traceback_later(RUN_TIMEOUT_S, exit=True)
+        r = None
         try:
             r = one_run(world, prop, verif_seed, i, keep=(i < keep_first))
         except HarnessError as e:
@@ -100,6 +100,7 @@ def _worker(args):
                                                        not world.nontrivial_needs_fault))
             r["cycles"] = sd["cycles"]
             _fold(agg, sd)
+        r["chunk_start"] = indices[0]
         out.append(r)
     return {"runs": out, "agg": agg}
 
@@ -119,6 +120,49 @@ def _fold(tot, s):
         tot[k] += s[k]
 
 
+def _child(conn, task):
+    try:
+        conn.send(_worker(task))
+    finally:
+        conn.close()
+
+
+def _run_tasks_forked(tasks, jobs):
+    """Every task (a contiguous chunk of run indices) runs in its own freshly forked process, so
+    the in-process history of a run is exactly the earlier runs of its chunk (this is what a
+    replay file records as `context` when a violation does not reproduce stand-alone, e.g. for
+    defects in state shared between instances). A child killed by the watchdog is a harness
+    error, never a pass."""
+    from multiprocessing.connection import wait
+    ctx = multiprocessing.get_context("fork")
+    pending = list(enumerate(tasks))
+    live = {}
+    done = {}
+    try:
+        while pending or live:
+            while pending and len(live) < jobs:
+                idx, t = pending.pop(0)
+                rd, wr = ctx.Pipe(duplex=False)
+                proc = ctx.Process(target=_child, args=(wr, t))
+                proc.start()
+                wr.close()
+                live[rd] = (proc, idx)
+            for conn in wait(list(live)):
+                proc, idx = live.pop(conn)
+                try:
+                    done[idx] = conn.recv()
+                except EOFError as e:
+                    raise HarnessError(f"worker for runs {tasks[idx][3][0]}..{tasks[idx][3][-1]} "
+                                       f"died (watchdog or crash)") from e
+                finally:
+                    conn.close()
+                proc.join()
+    finally:
+        for conn, (proc, idx) in live.items():
+            proc.kill()
+    return [done[i] for i in range(len(tasks))]
+
+
 def run_batch(world, prop, verif_seed, n_runs, jobs, keep_first=3):
     """Returns list of per-run results in run-index order (independent of worker count)."""
     chunk = max(1, min(64, n_runs // (jobs * 8) or 1))
@@ -132,14 +176,9 @@ def run_batch(world, prop, verif_seed, n_runs, jobs, keep_first=3):
             results.extend(part["runs"])
             _fold(agg, part["agg"])
     else:
-        ctx = multiprocessing.get_context("fork")
-        with cf.ProcessPoolExecutor(max_workers=jobs, mp_context=ctx) as ex:
-            try:
-                for part in ex.map(_worker, tasks):
-                    results.extend(part["runs"])
-                    _fold(agg, part["agg"])
-            except cf.process.BrokenProcessPool as e:
-                raise HarnessError(f"worker died (watchdog or crash): {e}") from e
+        for part in _run_tasks_forked(tasks, jobs):
+            results.extend(part["runs"])
+            _fold(agg, part["agg"])
     results.sort(key=lambda r: r["i"])
     run_batch.last_agg = agg
     return results
@@ -154,14 +193,28 @@ def merge_stats(agg, extra):
     return tot
 
 
-def write_replay(world, prop, seed, config, ops, violation, tag):
+def write_replay(world, prop, seed, config, ops, violation, tag, context=None):
     os.makedirs(os.path.join(VERIF_DIR, "replays"), exist_ok=True)
     path = os.path.join(VERIF_DIR, "replays", f"{prop}-{tag}.json")
     doc = {"property": prop, "world": world.name, "seed": seed, "config": config, "ops": ops,
            "violation": violation, "digest": jdigest([config, ops])}
+    if context:
+        doc["context"] = context
     with open(path, "w") as f:
         json.dump(doc, f, indent=1, sort_keys=True, default=str)
     return path
+
+
+def _replays_in_fresh_process(path):
+    import subprocess
+    env = dict(os.environ)
+    env.pop("VERIF_RUNS", None)
+    try:
+        r = subprocess.run([os.path.join(VERIF_DIR, "check"), "--replay", path], cwd=VERIF_DIR,
+                           env=env, capture_output=True, text=True, timeout=1800)
+    except subprocess.TimeoutExpired:
+        return False
+    return r.returncode == 1
 
 
 def replay(path):
@@ -173,6 +226,13 @@ def replay(path):
         doc = json.load(f)
     world = get_world(doc["world"])
     prop = doc["property"]
+    ctxd = doc.get("context")
+    if ctxd:
+        # the violation needs the in-process history of its chunk: re-run those runs first
+        print(f"re-running context runs {ctxd['first']}..{ctxd['last']} first (state shared between "
+              f"instances)")
+        for j in range(ctxd["first"], ctxd["last"] + 1):
+            one_run(world, prop, ctxd["verif_seed"], j, keep=False)
     res = execute(world, prop, doc["config"], doc["ops"])
     want = doc["violation"]
     got = res["violation"]
@@ -229,6 +289,20 @@ def check(world, prop, tier, verif_seed, n_runs, jobs, level_note=None):
             tried = 0
         tag = f"{tier}-{verif_seed}-{len(new_violations)}"
         path = write_replay(world, prop, r["seed"], config, ops, v, tag)
+        verified = _replays_in_fresh_process(path)
+        if not verified and r["i"] >= 0:
+            # Does not reproduce in a fresh interpreter (this process has run other candidates:
+            # state shared between instances). Fall back to the original run plus its in-process
+            # history: the earlier runs of its chunk, which ran in a freshly forked worker.
+            config, ops, v = r["config"], r["ops"], r["violation"]
+            context = None
+            if r["i"] > r.get("chunk_start", r["i"]):
+                context = {"verif_seed": verif_seed, "first": r["chunk_start"], "last": r["i"] - 1}
+            path = write_replay(world, prop, r["seed"], config, ops, v, tag, context)
+            verified = _replays_in_fresh_process(path)
+            print(f"note: the minimised scenario does not reproduce in a fresh process; replay file "
+                  f"holds the original run{' with its in-process history' if context else ''} "
+                  f"(reproduces in a fresh process: {verified})")
         print(f"violation: run={r['i']} seed={r['seed']} class={v['class']} cycle={v['cycle']} "
               f"{v['detail']} (minimised to {len(ops)} ops in {tried} candidate runs; "
               f"{len(by_key[key])} run(s) with this key)")
